@@ -132,7 +132,7 @@ pub trait Dom {
 
 // ------------------------------------------------------------------ dump → S
 
-fn cons_s<K>(c: &Constraint<K, CharacterPredicate>, kf: &impl Fn(&K) -> S) -> S {
+pub fn cons_s<K>(c: &Constraint<K, CharacterPredicate>, kf: &impl Fn(&K) -> S) -> S {
     let args = c.required_bindings();
     match c.predicate() {
         CharacterPredicate::BindingEq => {
@@ -299,7 +299,7 @@ fn gen_cv(rng: &mut Rng, n_lits: usize, n_vars: usize) -> Cv {
     }
 }
 
-fn skey_s(k: &StringPatternPosition) -> S {
+pub fn skey_s(k: &StringPatternPosition) -> S {
     sexp::a(Into::<usize>::into(*k))
 }
 fn smap_s(m: &StringPositionMap) -> S {
@@ -502,7 +502,7 @@ impl Dom for StrDom {
 
 pub struct MatDom;
 
-fn mkey_s(k: &MatrixPatternPosition) -> S {
+pub fn mkey_s(k: &MatrixPatternPosition) -> S {
     let (r, c): (isize, isize) = (*k).into();
     sexp::nums([r, c])
 }
